@@ -194,7 +194,7 @@ func c18(c *Ctx) {
 			cases = append(cases, reqCase{ID: "shape/" + sc.ID, Files: sc.Files, Gen: sc.Gen})
 		}
 	}
-	cases = append(cases, yamlRetypeCase(), importedMessagesCase(), threeServicesCase(), yaml11NamesCase(), sameShortNameCase("nested"), sameShortNameCase("top-vs-nested"), sameShortNameCase("imported"))
+	cases = append(cases, yamlRetypeCase(), importedMessagesCase(), threeServicesCase(), yaml11NamesCase(), sameShortNameCase("nested"), sameShortNameCase("top-vs-nested"), sameShortNameCase("imported"), discVariantTypesCase(false), discVariantTypesCase(true))
 	plugin.Parallel(len(cases), 16, func(i int) {
 		rc := cases[i]
 		base := "oas/" + rc.ID
@@ -516,4 +516,26 @@ func sameShortNameCase(kind string) reqCase {
 	}
 	f.Services = []*spec.Service{{Name: "ShortNameService", Methods: []*spec.Method{{Name: "Call", In: "." + pkg + ".Req", Out: "." + pkg + ".Req", HTTP: &spec.HTTP{Path: "/short", Verb: 2}}}}}
 	return reqCase{ID: "same-short-name/" + kind, Files: files, Gen: gen}
+}
+
+// discVariantTypesCase: a discriminated oneof whose variant message types are nested
+// declarations or have non-CamelCase names (Go identifier != proto short name).
+func discVariantTypesCase(flatten bool) reqCase {
+	sfx := "nested"
+	if flatten {
+		sfx = "flatten"
+	}
+	pkg := "c18.disc" + sfx
+	f := &spec.File{Path: "c18/disc_" + sfx + ".proto", Package: pkg, GoImport: "lab/gen/c18disc" + sfx, GoName: "c18disc" + sfx}
+	ev := &spec.Message{Name: "Event",
+		Nested: []*spec.Message{
+			{Name: "TextPayload", Fields: []*spec.Field{spec.F("body", 1, spec.String)}},
+			{Name: "ImagePayload", Fields: []*spec.Field{spec.F("url", 1, spec.String), spec.F("width_px", 2, spec.Int32)}}},
+		Fields: []*spec.Field{spec.F("id", 1, spec.String),
+			spec.FM("text", 2, "."+pkg+".Event.TextPayload").In(1), spec.FM("image", 3, "."+pkg+".Event.ImagePayload").In(1),
+			spec.FM("audio", 4, "."+pkg+".audio_clip").In(1), spec.FM("top", 5, "."+pkg+".TopLevel").In(1)},
+		Oneofs: []*spec.Oneof{{Name: "content", HasConfig: true, Discriminator: "kind", Flatten: flatten}}}
+	f.Messages = []*spec.Message{ev, {Name: "audio_clip", Fields: []*spec.Field{spec.F("codec", 1, spec.String)}}, {Name: "TopLevel", Fields: []*spec.Field{spec.F("note", 1, spec.String)}}}
+	f.Services = []*spec.Service{{Name: "EventService", Methods: []*spec.Method{{Name: "Publish", In: "." + pkg + ".Event", Out: "." + pkg + ".Event", HTTP: &spec.HTTP{Path: "/events", Verb: 2}}}}}
+	return reqCase{ID: "disc-variant-types/" + sfx, Files: []*spec.File{f}}
 }
